@@ -291,6 +291,33 @@ extern (*Stream).processExpressionField
   props C05 C20
   modifies mapof(result)
 
+// qst(s, n): quote state after the first n bytes of a "field:alias" spec: 0 outside quotes, else the byte that
+// opened the quote (', " or `). A colon is the field/alias separator only where the state before it is 0.
+recfunc qst((s Str) (n Int)) Int := (ite (<= n 0) 0 (let ((q (@qst s (- n 1))) (c (gs.at s (- n 1)))) (ite (not (= q 0)) (ite (= c q) 0 q) (ite (or (= c 39) (= c 34) (= c 96)) c 0))))
+pred sepAt(s, i) := qst(s, i) == 0 && s[i] == 58
+pred firstSep(s, i) := 0 <= i && i < len(s) && sepAt(s, i) && forall(j, 0, i, !sepAt(s, j))
+pred unq(s) := ite(len(s) >= 2 && s[0] == 96 && s[len(s) - 1] == 96, s[1:len(s) - 1], s)
+
+func (*Stream).compileSimpleFieldInfo$1
+  props C05
+  option safety
+  ensures one-or-two-parts: len(result) == 1 || len(result) == 2
+  ensures split-at-the-first-colon-outside-quotes: len(result) == 2 ==> exists(i, 0, len(spec), firstSep(spec, i) && result[0] == spec[:i] && result[1] == spec[i + 1:])
+  ensures unsplit-when-every-colon-is-quoted: len(result) == 1 ==> result[0] == spec && forall(j, 0, len(spec), !sepAt(spec, j))
+  loop 1 invariant 0 <= i && (inQuote ==> quoteChar == qst(spec, i) && quoteChar != 0) && (!inQuote ==> qst(spec, i) == 0) && forall(j, 0, i, !sepAt(spec, j))
+  loop 1 decreases len(spec) - i
+
+func (*Stream).compileSimpleFieldInfo
+  props C05
+  option safety
+  ensures result != nil && fresh(result)
+  ensures star-selects-every-column: fieldSpec == "*" ==> result.isSelectAll
+  ensures only-star-selects-every-column: fieldSpec != "*" ==> !result.isSelectAll
+  ensures column-and-alias-are-the-two-sides-of-the-first-unquoted-colon: fieldSpec != "*" ==> forall(i, 0, len(fieldSpec), firstSep(fieldSpec, i) ==> result.fieldName == unq(fieldSpec[:i]) && result.outputName == unq(fieldSpec[i + 1:]))
+  ensures without-an-unquoted-colon-the-column-is-its-own-name: fieldSpec != "*" && forall(j, 0, len(fieldSpec), !sepAt(fieldSpec, j)) ==> result.fieldName == unq(fieldSpec) && result.outputName == unq(fieldSpec)
+  ensures alias-is-the-output-name: fieldSpec != "*" ==> result.alias == result.outputName
+  ensures quoted-text-is-a-literal-without-its-quotes: fieldSpec != "*" && result.isStringLiteral ==> len(result.fieldName) >= 2 && result.stringValue == result.fieldName[1:len(result.fieldName) - 1]
+
 func (*Stream).processSimpleField
   props C05
   requires result != nil && result != dataMap
